@@ -13,9 +13,10 @@ struct UpHarness : HarnessBase {
 	alignas(16) unsigned char store[2][sizeof(U)];
 	bool alive[2] = {false, false};
 	struct M { bool on = false; int v = 0; } ref[2];
+	int aid[2] = {1, 2};   // which allocator instance each pointer currently carries (it travels with the pointee)
 	const char *prop() const { return "C16"; }
 	U &s(int a) { return *reinterpret_cast<U *>(store[a]); }
-	void reset() { world_reset(); for(int a = 0; a < 2; a++) { memset(store[a], 0, sizeof(U)); new(store[a]) U(TrackAlloc{}); alive[a] = true; ref[a] = {}; } }
+	void reset() { world_reset(); for(int a = 0; a < 2; a++) { memset(store[a], 0, sizeof(U)); new(store[a]) U(TrackAlloc{a + 1}); alive[a] = true; ref[a] = {}; aid[a] = a + 1; } }
 	enum { MAKE, ADOPT, MOVE_CONS, MOVE_ASSIGN, RESET_NULL, RESET_NEW, RELEASE, SWAP, MUTATE };
 	void ops(std::vector<uint32_t> &out) {
 		for(uint32_t a = 0; a < 2; a++) {
@@ -27,20 +28,20 @@ struct UpHarness : HarnessBase {
 	}
 	std::string show_class(uint32_t op) { static const char *nm[] = {"make_unique", "ctor(alloc,ptr)", "move_construct", "move_assign", "reset(null)", "reset(ptr)", "release", "swap", "mutate"}; return std::string("unique_ptr.") + nm[op & 0xff]; }
 	std::string show(uint32_t op) { return show_class(op) + "(slot" + std::to_string((op >> 8) & 0xf) + ",v=" + std::to_string(op >> 12) + ")"; }
-	Tracked *fresh(int v) { TrackAlloc al; return new(al.allocate(sizeof(Tracked))) Tracked(v); }
+	Tracked *fresh(int v, int id) { TrackAlloc al{id}; return new(al.allocate(sizeof(Tracked))) Tracked(v); }
 	void apply(uint32_t op) {
 		uint32_t k = op & 0xff, a = (op >> 8) & 0xf, b = 1 - a; int v = op >> 12;
 		switch(k) {
-		case MAKE: s(a) = frg::make_unique<Tracked>(TrackAlloc{}, v); ref[a] = {true, v}; break;
-		case ADOPT: s(a).~U(); alive[a] = false; new(store[a]) U(TrackAlloc{}, fresh(v)); alive[a] = true; ref[a] = {true, v}; break;
-		case MOVE_CONS: s(a).~U(); alive[a] = false; new(store[a]) U(std::move(s(b))); alive[a] = true; ref[a] = ref[b];
+		case MAKE: s(a) = frg::make_unique<Tracked>(TrackAlloc{(int)a + 1}, v); ref[a] = {true, v}; aid[a] = a + 1; break;
+		case ADOPT: s(a).~U(); alive[a] = false; new(store[a]) U(TrackAlloc{(int)a + 1}, fresh(v, (int)a + 1)); alive[a] = true; ref[a] = {true, v}; aid[a] = a + 1; break;
+		case MOVE_CONS: s(a).~U(); alive[a] = false; new(store[a]) U(std::move(s(b))); alive[a] = true; ref[a] = ref[b]; aid[a] = aid[b]; aid[b] = b + 1;
 			// the moved-from pointer is only destroyed and re-created
-			s(b).~U(); alive[b] = false; new(store[b]) U(TrackAlloc{}); alive[b] = true; ref[b] = {}; break;
-		case MOVE_ASSIGN: s(a) = std::move(s(b)); ref[a] = ref[b]; s(b).~U(); alive[b] = false; new(store[b]) U(TrackAlloc{}); alive[b] = true; ref[b] = {}; break;
+			s(b).~U(); alive[b] = false; new(store[b]) U(TrackAlloc{(int)b + 1}); alive[b] = true; ref[b] = {}; break;
+		case MOVE_ASSIGN: s(a) = std::move(s(b)); ref[a] = ref[b]; aid[a] = aid[b]; aid[b] = b + 1; s(b).~U(); alive[b] = false; new(store[b]) U(TrackAlloc{(int)b + 1}); alive[b] = true; ref[b] = {}; break;
 		case RESET_NULL: s(a).reset(nullptr); ref[a] = {}; break;
-		case RESET_NEW: s(a).reset(fresh(v)); ref[a] = {true, v}; break;
+		case RESET_NEW: s(a).reset(fresh(v, aid[a])); ref[a] = {true, v}; break;
 		case RELEASE: { Tracked *p = s(a).release(); if(!p || val(*p) != ref[a].v) throw Violation{"C16", "unique_ptr.release:value", "release() returned the wrong object"}; p->~Tracked(); TrackAlloc{}.free(p); ref[a] = {}; break; }
-		case SWAP: { using std::swap; swap(s(0), s(1)); std::swap(ref[0], ref[1]); break; }
+		case SWAP: { using std::swap; swap(s(0), s(1)); std::swap(ref[0], ref[1]); std::swap(aid[0], aid[1]); break; }
 		case MUTATE: *s(a) = Tracked(v); ref[a].v = v; break;
 		}
 	}
@@ -53,7 +54,7 @@ struct UpHarness : HarnessBase {
 		if(res) res->outcomes.insert(std::string(ref[0].on ? "on" : "off") + "/" + (ref[1].on ? "on" : "off"));
 	}
 	void final_check() { for(int a = 0; a < 2; a++) if(alive[a]) { s(a).~U(); alive[a] = false; } raise_pending(); world_check_empty("unique_ptr"); }
-	void canon(std::string &out) { world_canon(out); GraphCanon g; for(int a = 0; a < 2; a++) if(alive[a]) g.root(store[a], sizeof(U)); g.emit(out); for(int a = 0; a < 2; a++) out += std::string(ref[a].on ? "E" : "n") + std::to_string(ref[a].v) + ","; }
+	void canon(std::string &out) { world_canon(out); GraphCanon g; for(int a = 0; a < 2; a++) if(alive[a]) g.root(store[a], sizeof(U)); g.emit(out); for(int a = 0; a < 2; a++) out += std::string(ref[a].on ? "E" : "n") + std::to_string(ref[a].v) + "@" + std::to_string(aid[a]) + ","; }
 };
 
 struct UmHarness : HarnessBase {
